@@ -30,6 +30,12 @@ def _prepare_env():
     for k in ("OMP_NUM_THREADS", "MKL_NUM_THREADS", "OPENBLAS_NUM_THREADS", "NUMEXPR_NUM_THREADS"):
         os.environ[k] = "1"
     os.environ["TQDM_DISABLE"] = "1"
+    # scratch space: tmpfs is ~100x faster than the root disk for the many small zarr files
+    if "VQ_TMPDIR_SET" not in os.environ:
+        os.environ["VQ_TMPDIR_SET"] = "1"
+        if os.path.isdir("/dev/shm") and os.access("/dev/shm", os.W_OK):
+            os.environ["TMPDIR"] = "/dev/shm"
+            need_reexec = True
     os.environ["PYTHONDONTWRITEBYTECODE"] = "1"
     pp = os.environ.get("PYTHONPATH", "")
     want = REPO_SRC + os.pathsep + VERIF
